@@ -1783,6 +1783,14 @@ class Transaction(object):
             sig_domain = [''] * n_total_sigs
 
             txid = self.signature_hash(tid, hash_type, self.inputs[tid].witness_type)
+            # Signatures imported without their public key: find the key that made them before comparing and sorting
+            for sig in self.inputs[tid].signatures:
+                if not sig.public_key:
+                    for k in self.inputs[tid].keys:
+                        if verify(txid, sig, k):
+                            break
+                    else:
+                        sig.public_key = None
             for key in tid_keys:
                 # Check if signature signs known key and is not already in list
                 if key.public_byte not in pub_key_list:
